@@ -5,7 +5,7 @@ import BpModel.WellTyped
   `msgOkB_sound` in BpProofs/OkSound.lean).  Every function here is total and structurally
   recursive (or not recursive at all), so `decide` / `rfl` evaluate closed terms.
 
-  The field-kind predicates (`FlatField`, `SubField`, `TimeField`, `TimesField`, `WrapField`,
+  The field-kind predicates (`FlatField`, `SubField`, `TimeField`, `TimesField`, `WrapField`, `WrapsField`,
   `MapFieldS`, `MapFieldM`, `MapFieldT`), `flatSlotOk`, `timeValOk`, `NumsDistinct`, `WfGroups`, `KeysDistinct`, `UnkOk` and
   `isUnknownField` live in BpProofs and cannot be imported from the model: the functions
   below re-define what they say as Bool functions.
@@ -40,6 +40,11 @@ def isUserKind : MsgKind → Bool
 def wrapFieldB (f : FieldD) (w : PType) : Bool :=
   f.ty == PType.message && f.wraps == some w && isScalarType w && numOk f.num && !f.repeated
   && isUserKind f.kind
+
+/-- `WrapsField f w` -/
+def wrapsFieldB (f : FieldD) (w : PType) : Bool :=
+  f.ty == PType.message && f.wraps == some w && isScalarType w && numOk f.num && f.repeated
+  && !f.optional && f.group.isNone && isUserKind f.kind
 
 /-- `isMapKeyType` -/
 def mapKeyTypeB (t : PType) : Bool :=
@@ -219,6 +224,9 @@ def slotOkB (S : Schema) (f : FieldD) : Val → Bool
         | _ => false)
     || (timesFieldB f false && xs.all (timeValOkB false))
     || (timesFieldB f true && xs.all (timeValOkB true))
+    || (match f.wraps with
+        | some w => wrapsFieldB f w && xs.all (scalarOk w)
+        | Option.none => false)
   | .ts us => timeFieldB f false && tsOk us
   | .dur us => timeFieldB f true && durOk us
   | .dict ks vs =>
